@@ -76,18 +76,18 @@ def bridge_coverage():
             return ["<list of translated functions missing in %s.lean>" % f]
         names += re.findall(r'"([^"]+)"', m.group(1))
     txt = ""
-    for b in ("BridgeBits", "Bridge", "BridgeRat", "BridgePlane", "BridgeTable"):
+    for b in ("BridgeBits", "Bridge", "BridgeRat", "BridgeCpr", "BridgePlane", "BridgeTable"):
         txt += open(os.path.join(LEAN, "SqModel", "Proofs", b + ".lean"), encoding="utf-8").read()
     return [n for n in names if not re.search(re.escape(n) + r"(?![A-Za-z0-9_])", txt)]
 
 def safe_coverage():
-    """propositions of Generated/TransSafe.lean that Proofs/Safe.lean never mentions"""
+    """propositions of Generated/TransSafe.lean that Proofs/Safe.lean / SafeCpr.lean never mention"""
     t = open(os.path.join(LEAN, "SqModel", "Generated", "TransSafe.lean"), encoding="utf-8").read()
     m = re.search(r"def T\.safe_names : List String := \[(.*?)\]", t)
     if not m:
         return ["<list of safety propositions missing in TransSafe.lean>"]
     names = re.findall(r'"([^"]+)"', m.group(1))
-    txt = open(os.path.join(LEAN, "SqModel", "Proofs", "Safe.lean"), encoding="utf-8").read()
+    txt = "".join(open(os.path.join(LEAN, "SqModel", "Proofs", f), encoding="utf-8").read() for f in ("Safe.lean", "SafeCpr.lean"))
     return [n for n in names if not re.search(re.escape(n) + r"(?![A-Za-z0-9_])", txt)]
 
 def lean_forbidden_tokens():
@@ -183,9 +183,12 @@ class Run:
         if model:
             mo = open(base + ".model", "wb")
             procs.append(("model", subprocess.Popen([DRIVER], stdin=open(ops_path, "rb"), stdout=mo, stderr=subprocess.PIPE), mo))
+        t_start = time.time()
         for name, p, fh in procs:
             try:
                 _, err = p.communicate(timeout=timeout)
+                if name == "impl":
+                    LAST_ELAPSED[0] = time.time() - t_start
             except subprocess.TimeoutExpired:
                 p.kill()
                 raise Broken(f"{name} side did not terminate on {ops_path}")
@@ -259,6 +262,11 @@ def kvs(line):
     return d
 
 NUMERIC_TOL = {"lat": 1e-9, "lon": 1e-9, "dist": 2e-6}
+# ages are whole seconds of the wall clock, which the implementation reads itself while it works through a batch: the model
+# knows the simulated time only, so an age the implementation shows may exceed the model's by the real time the batch took
+# (generators keep simulated times half a second away from whole seconds; batches of the quick tier take far less than that)
+AGE_KEYS = ("age", "posage", "trkage", "hdgage", "cprage", "b50age")
+LAST_ELAPSED = [0.0]
 
 def ang_diff(a, b):
     d = abs(a - b) % 360.0
@@ -281,6 +289,12 @@ def lines_agree(impl, model, ignore=(), only=None):
         va, vb = a.get(k), b.get(k)
         if va == vb:
             continue
+        if k in AGE_KEYS and LAST_ELAPSED[0] >= 0.5:
+            try:
+                if 0 <= int(va) - int(vb) <= int(LAST_ELAPSED[0] + 0.5):
+                    continue
+            except (TypeError, ValueError):
+                pass
         if k in NUMERIC_TOL and va not in (None, "-") and vb not in (None, "-"):
             try:
                 fa, fb = float(va), float(vb)
